@@ -122,16 +122,17 @@ def traceOkFrom {V : Type} [DecidableEq V] (maxsize : Int) (s : SpecSt V) : List
 def traceOk {V : Type} [DecidableEq V] (maxsize : Int) (obs : List (Obs V)) : Bool :=
   traceOkFrom maxsize SpecSt.init obs
 
-/-- index of the first observation that violates the spec, and which clauses failed -/
-def firstBad {V : Type} [DecidableEq V] (maxsize : Int) (s : SpecSt V) (i : Nat) : List (Obs V) → Option (Nat × List String)
-  | [] => none
-  | o :: rest =>
-    if obsOk maxsize s o then firstBad maxsize (s.next o) (i + 1) rest
-    else some (i, (if capOk maxsize o then [] else ["capacity"]) ++ (if outOk maxsize s o then [] else ["result"])
-                  ++ (if lossOk maxsize s o then [] else ["loss"]) ++ (if gainOk s o then [] else ["gain"])
-                  ++ (if orderOk s o then [] else ["order"]))
+/-- which clauses of `obsOk` an observation violates -/
+def badClauses {V : Type} [DecidableEq V] (maxsize : Int) (s : SpecSt V) (o : Obs V) : List String :=
+  (if capOk maxsize o then [] else ["capacity"]) ++ (if outOk maxsize s o then [] else ["result"])
+    ++ (if lossOk maxsize s o then [] else ["loss"]) ++ (if gainOk s o then [] else ["gain"])
+    ++ (if orderOk s o then [] else ["order"])
 
-/-! ### history-level notions used in theorem statements (not evaluated by the driver) -/
+/-- every observation that violates the spec (index, clauses); the bookkeeping always follows the observations -/
+def allBad {V : Type} [DecidableEq V] (maxsize : Int) (s : SpecSt V) (i : Nat) : List (Obs V) → List (Nat × List String)
+  | [] => []
+  | o :: rest =>
+    (if obsOk maxsize s o then [] else [(i, badClauses maxsize s o)]) ++ allBad maxsize (s.next o) (i + 1) rest
 
 /-- keys ever stored or found, least recently touched first -/
 def touchOrderFrom {V : Type} (to : List String) : List (Obs V) → List String
